@@ -670,7 +670,7 @@ func runHistory(kind string, ops []string) (vs []viol, outcomes map[string]int, 
 					cause = "history contains a referrer whose subject has S1's digest and another size"
 				}
 			}
-			outcomes["disk/reopened: layout refused by oras-go on open ("+cause+") (not judged)"]++
+			outcomes["disk/reopened: layout refused by oras-go on open ("+cause+") (not judged)"]++; if os.Getenv("C19_PROBE") != "" { fmt.Println("REOPEN ERR:", err) }
 			if cause == "other" {
 				return vs, outcomes, w.evals, nsig, nother, fmt.Errorf("re-open failed: %w", err)
 			}
@@ -910,7 +910,7 @@ type hostileCase struct {
 	Special      string `json:"special,omitempty"`      // no-subject-layer-is-s1 | subject-s2-layer-is-s1
 }
 
-func hostileCases(thorough bool) []hostileCase {
+func hostileCases() []hostileCase {
 	var cs []hostileCase
 	for _, store := range []string{"memory", "disk"} {
 		for _, format := range []string{"image", "legacy"} {
@@ -1172,7 +1172,7 @@ func md2(list []ocispec.Descriptor, dg digest.Digest) ocispec.Descriptor {
 }
 
 func exploreHostile(r *hx.Run) {
-	cs := hostileCases(r.Thorough())
+	cs := hostileCases()
 	col := &collector{}
 	var mu sync.Mutex
 	controls, refused := 0, 0
@@ -1262,7 +1262,7 @@ func replay(r *hx.Run) {
 
 func main() {
 	r := hx.New("C19")
-	r.Rule = "every sequence of length 0..d over the 11 operations is replayed on a fresh real store and judged in its final state (so every state after every operation is judged once per history reaching it); canonical state = count per operation kind (the multiset of manifests per subject); non-trivial = distinct (store kind, canonical state) with at least one signature and at least one other manifest or second signature, plus every hostile manifest case"
+	r.Rule = "every sequence of length 0..d over the 11 operations is replayed on a fresh real store and judged in its final state (so every state after every operation is judged once per history reaching it); canonical state = count per operation kind (the multiset of manifests per subject; exact for content-addressed stores, whose content does not depend on the push order - confirmed by running all orders up to depth d); beyond d (frontier): every combination of 0, 1 or 2 manifests per operation kind up to 12 operations (quick: 6) in two fixed orders, which is NOT all orders; non-trivial = distinct (store kind, canonical state) with at least one signature and at least one other manifest or second signature, plus every hostile manifest case"
 	r.Assumptions = []string{
 		"envelopes are opaque distinct byte strings (the registry layer does not parse them)",
 		"size caps 4 MiB (manifest) and 32 MiB (blob) are written into the harness from repository.go",
@@ -1276,7 +1276,7 @@ func main() {
 		r.Finish()
 	}
 	dMem, dLoose, dDisk := 4, 3, 3
-	fLo, fHi := 5, 7
+	fLo, fHi := 5, 6
 	if r.Thorough() {
 		dMem, dLoose, dDisk = 5, 5, 4
 		fLo, fHi = 6, 12
@@ -1286,6 +1286,9 @@ func main() {
 	explore(r, "loose", dLoose)
 	explore(r, "disk", dDisk)
 	exploreFrontier(r, "memory", fLo, fHi)
+	if r.Thorough() {
+		exploreFrontier(r, "disk", 5, 7)
+	}
 	exploreHostile(r)
 	flushOutcomes(r)
 	statesMu.Lock()
